@@ -88,7 +88,7 @@ impl Prop for C18 {
         "C18"
     }
     fn rule(&self) -> String {
-        "cases = configuration {TLS offered?, server asks for a client certificate?, client has a certificate?, TLS 1.2 / 1.3} x a C03-style conversation (lock-step or pipelined; 1 in 8 with one reply of 600-5000 small rows, i.e. 60-500 KB of TLS records) x a chunk schedule over the whole client stream. The client is a rustls ClientConnection embedded in the scripted transport: it writes the SSLRequest packet (4.1 layout, reserved bytes zero or random; one in eight in the pre-4.1 layout with a 16-bit mask and a user name, then half of the time followed by a pre-4.1 encrypted response) and the ClientHello back-to-back (as real clients do), later flights as rustls produces them (the ClientHello optionally enlarged to 4-16 KiB by a long ALPN list, as session tickets and post-quantum key shares do), the HandshakeResponse (sequence id 2) and the commands inside the TLS session. Schedule classes: cut k bytes into the SSLRequest; SSLRequest + first k bytes of the ClientHello in one read; everything in one read; 1-byte reads; exact SSLRequest; mixed. Enumerated: a 17 MB query answered by a 17 MB row inside the TLS session (thorough: also 2^24-2 and 2*(2^24-1)+5 bytes), lock-step and pipelined. Oracle: run_on = Ok; every server byte after the greeting parses as TLS records and is accepted by rustls; the user name from the *encrypted* response and the client's DER chain (or None) reach after_authentication; the decrypted replies equal, message for message, the same conversation run in plaintext (differential); the client never hangs. TLS requested but not offered => Err and after_authentication never called. Non-trivial = some read() returned bytes from both sides of the SSLRequest / ClientHello boundary (measured from the operation log).".into()
+        "cases = configuration {TLS offered?, server asks for a client certificate?, client has a certificate?, TLS 1.2 / 1.3} x a C03-style conversation (lock-step or pipelined; 1 in 8 with one reply of 600-5000 small rows, i.e. 60-500 KB of TLS records) x a chunk schedule over the whole client stream. The client is a rustls ClientConnection embedded in the scripted transport: it writes the SSLRequest packet (4.1 layout, reserved bytes zero or random; one in eight in the pre-4.1 layout with a 16-bit mask and a user name, then half of the time followed by a pre-4.1 encrypted response) and the ClientHello back-to-back (as real clients do), later flights as rustls produces them (the ClientHello optionally enlarged to 4-16 KiB by a long ALPN list, as session tickets and post-quantum key shares do), the HandshakeResponse (sequence id 2) and the commands inside the TLS session. Schedule classes: cut k bytes into the SSLRequest; SSLRequest + first k bytes of the ClientHello in one read; everything in one read; 1-byte reads; exact SSLRequest; mixed. Enumerated: a 17 MB query answered by a 17 MB row inside the TLS session (thorough: also 2^24-2 and 2*(2^24-1)+5 bytes), lock-step and pipelined. Oracle: run_on = Ok; every server byte after the greeting parses as TLS records and is accepted by rustls; the user name from the *encrypted* response and the client's DER chain (or None) reach after_authentication; the decrypted replies equal, message for message, the same conversation run in plaintext (differential); the client never hangs. TLS requested but not offered => Err and after_authentication never called. One case in six has the shim refuse the client inside the session: run_on returns the shim's error, the ERR travels encrypted with the id after the encrypted response's, and everything matches the plaintext run. Non-trivial = some read() returned bytes from both sides of the SSLRequest / ClientHello boundary (measured from the operation log).".into()
     }
     fn assumptions(&self) -> Vec<String> {
         vec![
@@ -148,6 +148,10 @@ impl Prop for C18 {
                     .collect();
                 conv.actions[ai] = Action::Result(Program { steps: vec![Step::Set { cols, rows, end: SetEnd::Finish }] });
             }
+        }
+        // one in six: the shim refuses the client once it has seen who it is
+        if g.chance(1, 6) {
+            conv.reject_auth = Some(2000 + g.below(1000) as u32);
         }
         conv.lockstep = g.chance(1, 3);
         let (s, _) = gen_tls_schedule(g);
@@ -284,7 +288,13 @@ impl Prop for C18 {
             ex.fail("c18-client-hangs", format!("the server waits for input while the TLS client is still owed a reply (handshake done: {}, messages sent {}, run_on: {})", log.handshake_done, log.sent_messages, o.result.brief()));
             return ex;
         }
-        if !o.result.is_ok() {
+        if c.reject_auth.is_some() {
+            ex.class("shim-refuses-the-client-inside-the-TLS-session");
+            if !matches!(o.result, RunResult::ErrTagged(_)) {
+                ex.fail("c18-reject-result", format!("after_authentication refused the client but run_on returned {}", o.result.brief()));
+                return ex;
+            }
+        } else if !o.result.is_ok() {
             ex.fail("c18-run-result", format!("run_on returned {} (TLS handshake done: {}, client messages sent: {})", o.result.brief(), log.handshake_done, log.sent_messages));
             return ex;
         }
